@@ -42,7 +42,7 @@ def register(R):
         }
 
     R.contract(
-        f'{TC}._run_callback', props=['C08', 'C05', 'C04'], self_type=SHARED,
+        f'{TC}._run_callback', props=['C08', 'C05', 'C04', 'C06'], self_type=SHARED,
         params=dict(callback=ExtT('done_callback')),
         requires=USER_UNHELD,
         checks=run_callback_checks,
@@ -63,7 +63,7 @@ def register(R):
         }
 
     R.contract(
-        f'{TC}._run_callbacks', props=['C08', 'C05', 'C04'], self_type=SHARED,
+        f'{TC}._run_callbacks', props=['C08', 'C05', 'C04', 'C06'], self_type=SHARED,
         params=dict(callbacks=ListOfT(ExtT('done_callback'))),
         requires=USER_UNHELD,
         checks=run_callbacks_checks, raises={}, loops={0: trivial_loop()},
@@ -95,7 +95,7 @@ def register(R):
         checks=run_and_clear('_done_callbacks', '_done_callbacks_lock', 'done_callback'), raises={},
     )
     R.contract(
-        f'{TC}._run_failure_cleanups', props=['C05', 'C08', 'C04'], self_type=SHARED, params={},
+        f'{TC}._run_failure_cleanups', props=['C05', 'C08', 'C04', 'C06'], self_type=SHARED, params={},
         requires=USER_UNHELD,
         checks=run_and_clear('_failure_cleanups', '_failure_cleanups_lock', 'cleanup'), raises={},
     )
